@@ -1070,6 +1070,9 @@ impl<'a, 'b> GeneratorState<'a> {
         let mut switchnextstatement_label =
             format!(".switchnextstatement{}", self.local_label_counter_if);
         debug!("Cases : {:?}", cases);
+        // When the switch value is in the accumulator, the flags describe it
+        // only until the first comparison
+        let mut flags_valid = true;
         for (case, is_last_element) in cases
             .iter()
             .enumerate()
@@ -1081,6 +1084,12 @@ impl<'a, 'b> GeneratorState<'a> {
             match case.0.len() {
                 0 => (),
                 1 => {
+                    if !flags_valid && case.0[0] == 0 {
+                        if let ExprType::A(_) = e {
+                            self.asm(CMP, &ExprType::Immediate(0), pos, false)?;
+                        }
+                    }
+                    flags_valid = false;
                     self.generate_condition_ex(
                         &e,
                         &Operation::Eq,
@@ -1093,6 +1102,12 @@ impl<'a, 'b> GeneratorState<'a> {
                 }
                 _ => {
                     for i in &case.0 {
+                        if !flags_valid && *i == 0 {
+                            if let ExprType::A(_) = e {
+                                self.asm(CMP, &ExprType::Immediate(0), pos, false)?;
+                            }
+                        }
+                        flags_valid = false;
                         self.generate_condition_ex(
                             &e,
                             &Operation::Eq,
